@@ -365,7 +365,7 @@ fn tok_json(t: &RegistrationToken) -> Value {
 }
 
 /// Build the (not yet inserted) source described by `spec`.
-pub fn build_source(spec: &Value, faults: &Rc<Faults>, base: Instant, tick: Duration) -> Src {
+pub fn build_source(spec: &Value, faults: &Rc<Faults>, base: Instant, tick: Duration, w: &W) -> Src {
     let s = spec["s"].as_u64().unwrap() as u32;
     let kind = spec["kind"].as_str().unwrap_or("ping");
     let life = spec["life"].as_u64().unwrap_or(0) != 0;
@@ -386,14 +386,27 @@ pub fn build_source(spec: &Value, faults: &Rc<Faults>, base: Instant, tick: Dura
         last_tok: None,
         stream: None,
     };
+    // "ondrop": the source's Drop calls LoopHandle::remove with its own (by then dead) token
+    let ondrop = spec["ondrop"].as_u64().unwrap_or(0) != 0;
+    let mk_on_drop = || -> Option<Box<dyn FnOnce()>> {
+        if !ondrop {
+            return None;
+        }
+        let w2 = w.clone();
+        Some(Box::new(move || {
+            exec_op(&w2, None, &json!({"op": "remove", "ts": s}), 1000 + s as i64);
+        }))
+    };
     macro_rules! wrap {
         ($inner:expr) => {{
             if life {
-                Box::new(Probe::<_, true>::new(s, $inner, faults.clone(), synth_at.clone()))
-                    as Box<dyn Insertable>
+                let mut p = Probe::<_, true>::new(s, $inner, faults.clone(), synth_at.clone());
+                p.on_drop = mk_on_drop();
+                Box::new(p) as Box<dyn Insertable>
             } else {
-                Box::new(Probe::<_, false>::new(s, $inner, faults.clone(), synth_at.clone()))
-                    as Box<dyn Insertable>
+                let mut p = Probe::<_, false>::new(s, $inner, faults.clone(), synth_at.clone());
+                p.on_drop = mk_on_drop();
+                Box::new(p) as Box<dyn Insertable>
             }
         }};
     }
@@ -1005,6 +1018,7 @@ fn normal_decl(spec: &Value, fds: &[i32]) -> Value {
         "children": children,
         "fds": fds,
         "synth": spec["synth"].as_array().cloned().unwrap_or_default(),
+        "ondrop": spec["ondrop"].as_u64().unwrap_or(0),
     })
 }
 
@@ -1058,7 +1072,7 @@ pub fn run_scenario(scn: &Value) {
                 let wb = w.borrow();
                 build_dup_source(spec, wb.srcs.get(&of).unwrap(), c, &faults)
             } else {
-                build_source(spec, &faults, base, tick)
+                build_source(spec, &faults, base, tick, &w)
             };
             decl.push(normal_decl(spec, &src.fds));
             w.borrow_mut().srcs.insert(s, src);
